@@ -36,12 +36,15 @@
    ([C02_ring_to_ring]): nothing duplicated, merged, reordered or invented, for every cut of the
    stream.  A genuine decoding error (not MissingBuffer) ends the reader history.
 
-   NOT proved (hence "partial" overall): liveness — that every sent message does arrive once all
-   bytes were wired in and enough receives were made; it is proved per frame at loop level
-   ([C02_stream_integrity_flat]) and
-   decided against the specification [sspec_run] — received = sent, in order, nothing lost,
-   duplicated or merged, and everything arrives after a drain — by the correspondence run on
-   rings of many capacities and offsets with arbitrary cuts of the wire. *)
+   Liveness is proved for a reader that leaves scratch space in front of the unread bytes
+   before each call (what mpt_queue_recv's recovery path and mpt_stream_dispatch's enlargement
+   establish): [C02_stream_delivers_all] -- once the bytes the writer ring produced for complete
+   messages are in the decoder's buffer, as many such calls as messages were sent deliver ALL of
+   them, in order, and leave nothing unread.  For the ring-level reader [rh_run] itself liveness
+   is not a theorem (hence "partial" overall); there it is decided against the specification
+   [sspec_run] -- received = sent, in order, nothing lost, duplicated or merged, and everything
+   arrives after a drain -- by the correspondence run on rings of many capacities and offsets
+   with arbitrary cuts of the wire. *)
 From MptV Require Import Base.Mem Cobs.CobsModel Cobs.DecModel Cobs.EncProofs Cobs.EncTheorems
   Cobs.DecProofs Cobs.DecComplete Cobs.StreamSpec Cobs.StreamProofs
   C13.QueueModel Cobs.QueueCodec Cobs.QueuePushProofs Cobs.QueuePushTheorem Cobs.WriterHistory
@@ -124,6 +127,30 @@ Theorem C02_ring_to_ring :
       rh_msgs rs = firstn (length (rh_msgs rs)) (wh_done ws).
 Proof. exact ring_to_ring. Qed.
 
+Theorem C02_stream_delivers_all :
+  forall v wbuf woff wops ws, variant_ok v -> woff < length wbuf ->
+    wh_run v (wh_init wbuf woff) wops = Some ws -> wh_cur ws = [] -> escr (eq_st (wh_e ws)) = 0 ->
+    forall s (steps : list (list byte * list nat * list nat)),
+      idle_between v s ->
+      skipn (dcurr (hs_st s)) (hs_buf s) = wh_sent ws ++ contents (eq_q (wh_e ws)) ->
+      length steps = length (wh_done ws) ->
+      let s' := fold_left (fun s x => spaced_step v s (fst (fst x)) (snd (fst x)) (snd x)) steps s in
+      hs_msgs s' = hs_msgs s ++ wh_done ws /\ skipn (dcurr (hs_st s')) (hs_buf s') = [] /\ idle_between v s'.
+Proof. exact stream_delivers_all. Qed.
+
+(* non-vacuity: the stream of [C02_ring_writer_example] in the buffer of an idle decoder; two
+   spaced calls (fragment sizes 3 and 20) deliver both messages and leave nothing unread *)
+Example C02_stream_delivers_all_example :
+  let s := mkhs (dinit 0) [3;1;2;3;0; 232;4;5;6;7;8;9;10;11;12;0]%N [] false in
+  let s' := fold_left (fun s x => spaced_step v_zpe_r s (fst (fst x)) (snd (fst x)) (snd x))
+              [([7;7]%N, [3], []); ([]%N, [20], [])] s in
+  idle_between v_zpe_r s /\
+  hs_msgs s' = [[1;2;0;3]; [4;5;6;7;8;9;10;11;0;0;12]]%N /\ skipn (dcurr (hs_st s')) (hs_buf s') = [].
+Proof.
+  split; [|vm_compute; auto].
+  split; [reflexivity|]. split; [|reflexivity]. apply cinv_init. cbn [length]. lia.
+Qed.
+
 (* non-vacuity: an 8-byte reader ring starting at offset 5 (data wraps, consumed prefixes are
    shifted out), three frames arriving in three pieces; the history does not stop *)
 Example C02_ring_reader_example :
@@ -182,3 +209,4 @@ Print Assumptions C02_ring_writer_stream.
 Print Assumptions C02_stream_end_to_end.
 Print Assumptions C02_ring_reader_delivers.
 Print Assumptions C02_ring_to_ring.
+Print Assumptions C02_stream_delivers_all.
